@@ -396,3 +396,45 @@ def _key_callee(keyfn):
     meth = parts[-1]
     qual = parts[-2] if len(parts) >= 2 and parts[-2][0:1].isupper() else None
     return qual, meth
+
+
+RE_ASSIGN_OP = re.compile(r"^(Add|Sub|Mul|Div|Rem|Shl|Shr|BitAnd|BitOr|BitXor)Assign::(add|sub|mul|div|rem|shl|shr|bitand|bitor|bitxor)_assign$")
+
+
+def norm_fp(fp):
+    """`a op= b` and `a = a op b` are one operation (every OpAssign impl of the crate forwards to Op): the
+    assigning callee is renamed to the plain one, commutative arguments are sorted again and variables renumbered.
+    Applied to recorded and current fingerprints alike."""
+    def norm(x):
+        x = x.strip()
+        m = re.match(r"^([A-Za-z_][\w:]*)\(", x)
+        if m and x.endswith(")"):
+            depth = 0
+            end = None
+            for i in range(m.end() - 1, len(x)):
+                if x[i] == "(":
+                    depth += 1
+                elif x[i] == ")":
+                    depth -= 1
+                    if depth == 0:
+                        end = i
+                        break
+            if end == len(x) - 1:
+                name = m.group(1)
+                am = RE_ASSIGN_OP.match(name)
+                if am:
+                    name = "%s::%s" % (am.group(1), am.group(2))
+                args = [norm(a) for a in _split_args(x[m.end():-1])]
+                if name in COMMUTATIVE:
+                    args.sort(key=lambda a: (re.sub(r"\bv\d+\b", "v", a), a))
+                return "%s(%s)" % (name, ", ".join(args))
+        return x
+    out = norm(re.sub(r"\b(copy|move) ", "", fp))
+    names = {}
+
+    def sub(m):
+        k = m.group(0)
+        if k not in names:
+            names[k] = "\0v%d" % (len(names) + 1)
+        return names[k]
+    return re.sub(r"\bv\d+\b", sub, out).replace("\0", "")
